@@ -98,30 +98,80 @@ def body(run: Run, replay):
     # ---------------- Locate -------------------------------------------------------------------
     cfg = "MC_Locate.cfg" if quick else "MC_Locate_t.cfg"
     res = tlc.run("Locate", cfg, timeout=1500, heap="8g")
-    if res.violation:
-        run.add_tlc(cfg, res)
-        run.violation("TLC: %s on the Locate model" % res.violation, {"tlc": res.error_text()}, {"where": "model"})
-        return
-    run.add_tlc(cfg, res, "invariant Laws; one state per query")
-    table_rows = [[10, 1, "b"], [10, 2, "b"], [10, 3, "b"], [10, 4, "c"], [10, 5, "c"], [10, 6, "m"], [20, 0, "q"],
-                  [30, 1, "s"], [30, 2, "s"], [30, 3, "o"], [30, 4, "o"], [30, 5, "r"], [30, 6, "e"], [5, 0, "q"]]
-    uset = n2p.make_uset([r[:2] for r in table_rows], [r[2] for r in table_rows])
+    res2 = tlc.run("Locate", "MC_Locate_v2.cfg", timeout=600)
+    for r_, c_ in ((res, cfg), (res2, "MC_Locate_v2.cfg")):
+        if r_.violation:
+            run.add_tlc(c_, r_)
+            run.violation("TLC: %s on the Locate model" % r_.violation, {"tlc": r_.error_text()}, {"where": "model"})
+            return
+    run.add_tlc(cfg, res, "invariant Laws; one state per query; table variant 1")
+    run.add_tlc("MC_Locate_v2.cfg", res2, "table variant 2 (same rows, other set assignment) for the edit-in-place history")
+    tab1 = [list(r) for r in res.tagged("TABLE")[0][1]]
+    tab2 = [list(r) for r in res2.tagged("TABLE")[0][1]]
+    uset = n2p.make_uset([r[:2] for r in tab1], [r[2] for r in tab1])
     idx = [(int(i), int(d)) for i, d in uset.index]
-    if idx != [(r[0], r[1]) for r in table_rows]:
+    if idx != [(r[0], r[1]) for r in tab1] or [r[:2] for r in tab1] != [r[:2] for r in tab2]:
         raise RuntimeError("make_uset did not keep the row order of the spec's Table")
-    arr = np.array([r[:2] for r in table_rows])
+    masks = {1: np.array([n2p.mkusetmask(r[2]) for r in tab1]), 2: np.array([n2p.mkusetmask(r[2]) for r in tab2])}
+    arr = np.array([r[:2] for r in tab1])
+
+    def set_variant(k):
+        """edit the SAME DataFrame object in place (same rows, other set membership)"""
+        uset.loc[:, "nasset"] = masks[k]
 
     def comps_int(c):
         return int("".join(str(x) for x in c))
 
+    # instantiations of the spec's value ids: equality structure preserved (injective maps), dtypes varied
+    MIX = {0: 0, 1: 2, 2: 2.5, 3: 3, 4: 4}
+
+    def inst_arrays(a, b):
+        """yield (label, A, B) numpy arrays for a two-array query"""
+        yield "int", np.array(a, int), np.array(b, int)
+        yield "float", np.array(a, float) * 0.5, np.array(b, float) * 0.5
+        if 2 not in a:
+            yield "int-vs-float", np.array([MIX[x] for x in a], int), np.array([MIX[x] for x in b], float)
+        if 2 not in b:
+            yield "float-vs-int", np.array([MIX[x] for x in a], float), np.array([MIX[x] for x in b], int)
+        yield "int32-vs-int64", np.array(a, np.int32), np.array(b, np.int64) + 0
+
+    def do_mkdofpv(q, ans):
+        fn = q["fn"]
+        if fn == "mkdofpv2":
+            dof = [[it[0], comps_int(it[1])] for it in q["req"]]
+            kw = {}
+        else:
+            dof = list(q["ids"])
+            kw = {"grids_only": q["go"]}
+        exp_pv, exp_dof = ans
+        bad = None
+        for target in ("frame", "array"):
+            if target == "array" and (q["set"] != "p"):
+                continue
+            try:
+                pv, od = n2p.mkdofpv(uset if target == "frame" else arr, q["set"], dof, strict=q["strict"], **kw)
+                got = ([int(x) for x in pv], [[int(a), int(b)] for a, b in od])
+                refused = False
+            except ValueError:
+                refused = True
+            if exp_pv == [-1]:
+                if not refused:
+                    bad = {"target": target, "got": got, "expected": "refusal"}
+            elif refused or got[0] != exp_pv or got[1] != [list(x) for x in exp_dof]:
+                bad = {"target": target, "got": "refused" if refused else got, "expected": [exp_pv, exp_dof]}
+        return bad, exp_pv not in ([-1], [])
+
+    ans2 = {json.dumps(q, sort_keys=True): ans for q, ans in res2.tagged("LOC") if q["fn"].startswith("mkdofpv")}
     for q, ans in res.tagged("LOC"):
         fn = q["fn"]
         bad = None
         nontriv = True
         try:
             if fn == "find_duplicates":
-                got = [int(x) for x in locate.find_duplicates(q["a"])]
-                bad = None if got == ans else got
+                for lab, A, _ in inst_arrays(q["a"], q["a"]):
+                    got = [int(x) for x in locate.find_duplicates(A)]
+                    if got != ans:
+                        bad = {lab: got}
                 nontriv = any(ans)
             elif fn == "flippv":
                 got = [int(x) for x in locate.flippv(np.array(q["a"], int), q["n"])]
@@ -131,13 +181,13 @@ def body(run: Run, replay):
                 bad = None if got == ans else got
             elif fn == "index2slice":
                 pv = np.array(q["a"], int)
-                s = locate.index2slice(pv)
-                conv = isinstance(s, slice)
+                s_ = locate.index2slice(pv)
+                conv = isinstance(s_, slice)
                 if conv != bool(ans[0]):
                     bad = "convertible=%s" % conv
-                elif conv and list(np.arange(max(q["a"], default=0) + 4)[s]) != q["a"]:
-                    bad = "slice %r does not reproduce pv" % (s,)
-                elif not conv and list(s) != q["a"]:
+                elif conv and list(np.arange(max(q["a"], default=0) + 4)[s_]) != q["a"]:
+                    bad = "slice %r does not reproduce pv" % (s_,)
+                elif not conv and list(s_) != q["a"]:
                     bad = "non-convertible pv not returned unchanged"
                 if bad is None:
                     try:
@@ -148,61 +198,60 @@ def body(run: Run, replay):
                     if raised == bool(ans[0]):
                         bad = "strict=True raised=%s" % raised
             elif fn == "find_subseq":
-                got = [int(x) for x in locate.find_subseq(np.array(q["a"], int), np.array(q["b"], int))] if q["a"] else []
-                bad = None if got == ans else got
+                for lab, A, B in inst_arrays(q["a"], q["b"]):
+                    got = [int(x) for x in locate.find_subseq(A, B)] if q["a"] else []
+                    if got != ans:
+                        bad = {lab: got}
                 nontriv = bool(ans)
             elif fn == "find_vals":
-                got = [int(x) for x in locate.find_vals(np.array(q["a"], int), np.array(q["b"], int))]
-                bad = None if got == ans else got
+                for lab, A, B in inst_arrays(q["a"], q["b"]):
+                    got = [int(x) for x in locate.find_vals(A, B)]
+                    if got != ans:
+                        bad = {lab: got}
                 nontriv = any(ans)
             elif fn == "mat_intersect":
                 which, pvN, adm = ans
-                for form in ("vec", "mat"):
-                    if form == "vec":
-                        p1, p2 = locate.mat_intersect(np.array(q["a"]), np.array(q["b"]), q["keep"])
-                    else:  # the same rows as 2-column matrices [v, 7 - v]
-                        A = np.array([[v, 7 - v] for v in q["a"]])
-                        B = np.array([[v, 7 - v] for v in q["b"]])
-                        p1, p2 = locate.mat_intersect(A, B, q["keep"])
-                    pn, ph = (p1, p2) if which == 1 else (p2, p1)
-                    if [int(x) for x in pn] != pvN or len(ph) != len(pvN) or any(int(h) not in adm[i] for i, h in enumerate(ph)):
-                        bad = {"form": form, "pv1": [int(x) for x in p1], "pv2": [int(x) for x in p2]}
+                for lab, A1, B1 in inst_arrays(q["a"], q["b"]):
+                    for form in ("vec", "mat"):
+                        if form == "vec":
+                            p1, p2 = locate.mat_intersect(A1, B1, q["keep"])
+                        else:  # the same rows as 2-column matrices [v, 7 - v]
+                            p1, p2 = locate.mat_intersect(np.column_stack((A1, 7 - A1)), np.column_stack((B1, 7 - B1)), q["keep"])
+                        pn, ph = (p1, p2) if which == 1 else (p2, p1)
+                        if [int(x) for x in pn] != pvN or len(ph) != len(pvN) or any(int(h) not in adm[i] for i, h in enumerate(ph)):
+                            bad = {"values": lab, "form": form, "pv1": [int(x) for x in p1], "pv2": [int(x) for x in p2]}
                 nontriv = bool(pvN)
             elif fn == "list_intersect":
-                p1, p2 = locate.list_intersect(list(q["a"]), list(q["b"]))
-                got = [[int(x) for x in p1], [int(x) for x in p2]]
-                bad = None if got == [ans[0], ans[1]] else got
+                for lab, f in (("int", lambda x: x), ("str", lambda x: "s%d" % x), ("float", lambda x: MIX[x] * 1.0), ("tuple", lambda x: (x, -x))):
+                    p1, p2 = locate.list_intersect([f(x) for x in q["a"]], [f(x) for x in q["b"]])
+                    got = [[int(x) for x in p1], [int(x) for x in p2]]
+                    if got != [ans[0], ans[1]]:
+                        bad = {lab: got}
                 nontriv = bool(ans[0])
             elif fn == "merge_lists":
-                l1, l2 = list(q["a"]), list(q["b"])
-                m, p1, p2 = locate.merge_lists(l1, l2)
-                items, n = ans
-                if set(m) != set(items) or len(m) != n or [m[i] for i in p1] != l1 or [m[i] for i in p2] != l2 \
-                        or list(p1) != sorted(p1) or m is l1:
-                    bad = {"merged": m, "pv1": p1, "pv2": p2}
+                for lab, f in (("int", lambda x: x), ("str", lambda x: "s%d" % x)):
+                    l1, l2 = [f(x) for x in q["a"]], [f(x) for x in q["b"]]
+                    m, p1, p2 = locate.merge_lists(l1, l2)
+                    items, n = ans
+                    if set(m) != set(f(x) for x in items) or len(m) != n or [m[i] for i in p1] != l1 or [m[i] for i in p2] != l2 \
+                            or list(p1) != sorted(p1) or m is l1:
+                        bad = {"values": lab, "merged": m, "pv1": p1, "pv2": p2}
             elif fn in ("mkdofpv2", "mkdofpv1"):
-                if fn == "mkdofpv2":
-                    dof = [[it[0], comps_int(it[1])] for it in q["req"]]
-                    kw = {}
-                else:
-                    dof = list(q["ids"])
-                    kw = {"grids_only": q["go"]}
-                exp_pv, exp_dof = ans
-                for target in ("frame", "array"):
-                    if target == "array" and q["set"] != "p":
-                        continue
+                bad, nontriv = do_mkdofpv(q, ans)
+                key = json.dumps(q, sort_keys=True)
+                if bad is None and key in ans2:
+                    # history: look-up, edit the table object in place, look-up again, restore
+                    set_variant(2)
                     try:
-                        pv, od = n2p.mkdofpv(uset if target == "frame" else arr, q["set"], dof, strict=q["strict"], **kw)
-                        got = ([int(x) for x in pv], [[int(a), int(b)] for a, b in od])
-                        refused = False
-                    except ValueError:
-                        refused = True
-                    if exp_pv == [-1]:
-                        if not refused:
-                            bad = {"target": target, "got": got, "expected": "refusal"}
-                    elif refused or got[0] != exp_pv or got[1] != [list(x) for x in exp_dof]:
-                        bad = {"target": target, "got": "refused" if refused else got, "expected": [exp_pv, exp_dof]}
-                nontriv = exp_pv not in ([-1], [])
+                        bad2, _ = do_mkdofpv(q, ans2[key])
+                    finally:
+                        set_variant(1)
+                    if bad2 is not None:
+                        bad = {"after an in-place edit of the table to variant 2": bad2}
+                    else:
+                        bad3, _ = do_mkdofpv(q, ans)
+                        if bad3 is not None:
+                            bad = {"after restoring variant 1 in place": bad3}
         except Exception as ex:
             bad = "raised %r" % ex
         run.case(json.dumps(q, sort_keys=True), nontrivial=nontriv, part=fn)
